@@ -186,10 +186,15 @@ def loopless_solution(
     with model:
         prob = model.problem
         # Fix the objective
+        # keep the objective at its optimum (from the side that matters)
+        if model.objective.direction == "max":
+            obj_bounds = {"lb": opt}
+        else:
+            obj_bounds = {"ub": opt}
         loopless_obj_constraint = prob.Constraint(
             model.objective.expression,
-            lb=opt,
             name="loopless_obj_constraint",
+            **obj_bounds,
         )
         model.add_cons_vars([loopless_obj_constraint])
         _add_cycle_free(model, fluxes)
